@@ -1121,6 +1121,13 @@ def n33_canonical_local(pieces, name, pat_s, file, applied):
             pc.kind = "rw"
             pc.rule = "N33"
             n += 1
+        elif pc.tkind == "str" and ("{" + cur + "}") in pc.text and pos >= 3 and any(
+                pieces[si[q]].text in ("write", "writeln", "format", "format_args") and pieces[si[q + 1]].text == "!" for q in range(max(0, pos - 6), pos - 1)):
+            # an inline format argument `{local}` of a formatting macro names the local too
+            pc.text = pc.text.replace("{" + cur + "}", "{" + name + "}")
+            pc.kind = "rw"
+            pc.rule = "N33"
+            n += 1
     applied.add("N33", file, pieces[si[0]].line, f"local `{cur}` renamed to its canonical name `{name}` ({n} occurrences)")
 
 
